@@ -179,6 +179,14 @@ def gen_fourier(rng, tier):
     # fixed: non-Cartesian samples beyond the edge of the encoded k-space (|k| > N_enc / 2): still exp(-2 pi i k r / N_enc)
     for pts in ([[0.25, 0.0], [2.5, -1.0], [-3.25, 0.5], [1.0, 3.5], [-2.0, -3.75], [3.0, 3.0]], [[0.125, 2.75], [-2.5, 0.0], [1.5, -2.5], [0.0, 0.0]]):
         out.append({'recon': [1, 4, 4], 'enc': [1, 4, 4], 'kind': 'noncart', 'seed': 2, 'points2d': pts, 'overshoot': True})
+    # 2-D non-Cartesian sampling that differs from slice to slice (kz single-valued: z is a batch direction; one `other`): every slice must be
+    # encoded with its own sample positions
+    for i in range(3 if tier == 'quick' else 40):
+        nz, n = rng.randint(2, 4), rng.randint(3, 6)
+        ny, nx = rng.randint(4, 6), rng.randint(4, 6)
+        sl = [[[rng.randint(-(ny // 2) * 4, (ny - ny // 2 - 1) * 4) / 4 + (0.125 if j == 0 else 0), rng.randint(-(nx // 2) * 4, (nx - nx // 2 - 1) * 4) / 4]
+               for j in range(n)] for _ in range(nz)]
+        out.append({'recon': [nz, ny, nx], 'enc': [nz, ny, nx], 'kind': 'noncart_multislice', 'seed': rng.randrange(10 ** 6), 'slices': sl})
     return out
 
 
@@ -189,6 +197,12 @@ def _traj(c):
     if 'points' in c:
         p = torch.tensor(c['points'], dtype=torch.float64).reshape(1, *c['tshape'], 3)
         return KTrajectory(p[..., 0], p[..., 1], p[..., 2], repeat_detection_tolerance=None, grid_detection_tolerance=tol), c['points']
+    if 'slices' in c:
+        p = torch.tensor(c['slices'], dtype=torch.float64)      # (nz, n, 2)
+        nz, n = p.shape[:2]
+        kz = torch.zeros(1, 1, 1, 1, dtype=torch.float64)
+        return (KTrajectory(kz, p[..., 0].reshape(1, nz, 1, n), p[..., 1].reshape(1, nz, 1, n), repeat_detection_tolerance=None, grid_detection_tolerance=tol),
+                [[float(z), a, b] for z, slc in enumerate(c['slices']) for a, b in slc])
     if 'points2d' in c:
         p = torch.tensor(c['points2d'], dtype=torch.float64)
         n = p.shape[0]
@@ -253,6 +267,8 @@ def _reference(c, o):
     for s, k in enumerate(pts):
         phase = np.zeros(recon)
         mask = np.ones(recon, dtype=bool)
+        if 'slices' in c:      # the first coordinate of these points is the slice the sample belongs to (z is a batch direction)
+            mask &= grids[0] == int(k[0])
         for ax, d in enumerate((-3, -2, -1)):
             if d in ign:
                 continue
